@@ -139,6 +139,18 @@ CHECKS = {
         "runtime monitoring: reference-model oracle over captured DOT sources + invariant check at a quiescent hook",
         "3/C13",
     ),
+    "C17": (
+        "exploration",
+        "Runtime monitor over complete FORD runs (forked child): generated page directories (depth <=3; index.md present/absent/"
+        "title-less; titled and title-less pages; other files; hidden/backup files; nested sub-directories; plain asset directories; "
+        "ordered_subpage complete/partial/with duplicates in both metadata spellings; copy_subdir in project file, index.md and on "
+        "non-index pages; relative, |page| |media| |url| and [[entity]] links) are compared with an independent walk of the model: page "
+        "set and titles, navigation pre-order inside every page, byte equality of copied files, reports for skipped files, and link "
+        "resolution from every depth (C09 checker).",
+        "ordered_subpage entries always name existing entries; a directory whose index.md is missing or title-less is skipped with its sub-tree.",
+        "runtime monitoring: reference-model oracle over <output>/page + navigation order + link checker",
+        "3/C17",
+    ),
     "C18": (
         "exploration",
         "Runtime monitor over complete FORD runs (forked child): programs whose declarations carry HTML/Markdown-significant text "
